@@ -298,6 +298,69 @@ static void tables_free(void)
 }
 
 /* ---------------------------------------------------------------- operations */
+/* copy up to n bytes from an arbitrary address without faulting and without sanitizer interception:
+ * the kernel does the reading (write(2) into a pipe fails with EFAULT on an unreadable address) */
+static long safe_copy(const void *p, char *buf, size_t n)
+{
+	static int pfd[2] = {-1, -1};
+
+	if (pfd[0] < 0 && pipe(pfd) != 0)
+		return -1;
+	long r = syscall(SYS_write, pfd[1], p, n);
+
+	if (r <= 0)
+		return -1;
+	long got = 0;
+
+	while (got < r) {
+		long k = syscall(SYS_read, pfd[0], buf + got, (size_t)(r - got));
+
+		if (k <= 0)
+			return -1;
+		got += k;
+	}
+	return r;
+}
+
+/* reply for a returned name pointer: `null`, `str <identifier>` or `ptr <why>` (a non-NULL pointer that
+ * is not an identifier string; never dereferenced by this process) */
+static void print_name(const char *s)
+{
+	char buf[96];
+
+	if (!s) {
+		printf("null\n");
+		return;
+	}
+	long r = safe_copy(s, buf, sizeof(buf) - 1);
+
+	if (r <= 0) {
+		printf("ptr unreadable\n");
+		return;
+	}
+	long len = 0;
+
+	while (len < r && buf[len])
+		len++;
+	if (len == r) {
+		printf("ptr unterminated\n");
+		return;
+	}
+	if (len == 0) {
+		printf("ptr empty-string\n");
+		return;
+	}
+	for (long i = 0; i < len; i++) {
+		unsigned char c = (unsigned char)buf[i];
+
+		if (!((c >= 'A' && c <= 'Z') || (c >= 'a' && c <= 'z') || (c >= '0' && c <= '9') || c == '_')) {
+			printf("ptr not-an-identifier\n");
+			return;
+		}
+	}
+	printf("str %s\n", buf);
+}
+
 static void op_name(int which, long long v)
 {
 	const char *s;
@@ -306,10 +369,7 @@ static void op_name(int which, long long v)
 		s = rtr_state_to_str(v < 0 ? (enum rtr_socket_state)(int)v : (enum rtr_socket_state)(unsigned int)v);
 	else
 		s = rtr_mgr_status_to_str(v < 0 ? (enum rtr_mgr_status)(int)v : (enum rtr_mgr_status)(unsigned int)v);
-	if (s)
-		printf("str %s\n", s);
-	else
-		printf("null\n");
+	print_name(s);
 }
 
 static void op_eod(long long mode, long long sv, long long pv, long long r, long long e, long long y, long long pr,
